@@ -193,12 +193,35 @@ class IOSeam:
         sim_open.__wrapped__ = _REAL_OPEN
         builtins.open = sim_open
         io.open = sim_open
+        # an output that is written elsewhere and moved into place is "closed" at the move
+        self._real_replace, self._real_rename = os.replace, os.rename
+
+        def _moved(dst):
+            try:
+                if seam.out_path is not None and os.path.realpath(os.fspath(dst)) == seam.out_path:
+                    seam.out_events.append(("close", seam.seq_source() if seam.seq_source else None))
+            except TypeError:
+                pass
+
+        def sim_replace(src, dst, *a, **kw):
+            r = seam._real_replace(src, dst, *a, **kw)
+            _moved(dst)
+            return r
+
+        def sim_rename(src, dst, *a, **kw):
+            r = seam._real_rename(src, dst, *a, **kw)
+            _moved(dst)
+            return r
+
+        os.replace = sim_replace
+        os.rename = sim_rename
         self._installed = True
 
     def uninstall(self):
         if self._installed:
             builtins.open = _REAL_OPEN
             io.open = _REAL_OPEN
+            os.replace, os.rename = self._real_replace, self._real_rename
             self._installed = False
 
     def unclosed(self):
